@@ -48,7 +48,182 @@ def cases(rng, tier):
     return out
 
 
+FAMILY = [
+    # class, module, thumb state, kind
+    ('Ldmda', 'ldmda', False, 'ldmx 1'), ('Ldmdb', 'ldmdb', None, 'ldmx 2'), ('Ldmib', 'ldmib', False, 'ldmx 3'),
+    ('LdmThumb', 'ldm_thumb', True, 'ldmx 0'),
+    ('Stmda', 'stmda', False, 'stmx 1'), ('Stmdb', 'stmdb', None, 'stmx 2'), ('Stmib', 'stmib', False, 'stmx 3'),
+    ('Push', 'push', None, 'push'), ('PopArm', 'pop_arm', False, 'pop'), ('PopThumb', 'pop_thumb', True, 'pop'),
+    ('StmUserRegisters', 'stm_user_registers', False, 'stm_user'), ('LdmUserRegisters', 'ldm_user_registers', False, 'ldm_user'),
+    ('LdmExceptionReturn', 'ldm_exception_return', False, 'ldm_eret'), ('Rfe', 'rfe', None, 'rfe'),
+    ('SrsArm', 'srs_arm', False, 'srs'), ('SrsThumb', 'srs_thumb', True, 'srs'),
+]
+BASES = [0x1000, 0x1010, 0x1040, 0x10C0, 0x10F0, 0x10FC, 0xFFFFFFF0, 0xFFFFFFF8, 0xFFFFFFFC, 0x1002, 0x2000, 0x0, 0x4, 0x8, 0xC]
+
+
+def family_cases(rng, tier):
+    """the rest of the block-transfer family against the executable specifications of Spec/BlockFamily.v (no theorem:
+    implementation = regenerated model = specification on generated cases)"""
+    t = statelib.load_index(C.GEN)['tables']
+    out = []
+    per = 24 if tier == 'quick' else 1200
+    spsr_ix = [t['sys_names'].index(n) for n in ('spsr_svc', 'spsr_abt', 'spsr_und', 'spsr_mon', 'spsr_irq', 'spsr_fiq')]
+    icpsr = t['sys_names'].index('cpsr')
+    for cls, module, thumb_req, kind in FAMILY:
+        for _ in range(per):
+            thumb = thumb_req if thumb_req is not None else (rng.random() < 0.4)
+            cfgd, st, secure = mk_state(rng, t, thumb)
+            arch, jaz = cfgd['arch_version'], int(cfgd['jazelle_accepts_execution'])
+            hs = int(cfgd['have_security_ext'])
+            for i in spsr_ix:
+                st['sys'][i] = (rng.getrandbits(27) << 5) | rng.choice([16, 17, 18, 19, 23, 27, 31, 31, rng.getrandbits(5)])
+            if kind in ('stm_user', 'ldm_user', 'ldm_eret', 'rfe', 'srs'):
+                mode = rng.choice([17, 18, 19, 23, 27])
+                st['sys'][icpsr] = (st['sys'][icpsr] & ~0x1F) | mode
+            regs = rng.choice([rng.getrandbits(16), rng.getrandbits(16) & 0x7FFF, 1 << rng.randrange(16), 0xFFFF, 0x8000 | rng.getrandbits(4),
+                               0x2000 | rng.getrandbits(13), 0xA000 | rng.getrandbits(4)])
+            if regs == 0:
+                regs = 1
+            n = rng.choice([0, 1, 5, 13, 13, 14])
+            wback = rng.choice([0, 1])
+            base = rng.choice(BASES)
+            inc, wh = rng.choice([0, 1]), rng.choice([0, 1])
+            ua = int(rng.random() < 0.3)
+            tmode = rng.choice([17, 18, 19, 23, 27, 31, 16])
+            if kind in ('push', 'pop'):
+                set_reg(st, t, 13, base)
+            elif kind == 'srs':
+                set_reg(st, t, 13, base)
+            else:
+                set_reg(st, t, n, base)
+            if kind.startswith('ldmx') and cls == 'LdmThumb':
+                regs &= 0x80FF if rng.random() < 0.5 else 0xFFFF
+                regs = regs or 1
+            cfg = statelib.coq_config(cfgd, t)
+            m = statelib.coq_machine(st)
+            hv = 'false'
+            sec = b(secure)
+            if ua and kind in ('push', 'pop'):
+                rd = f'(fun a sz s => MemU_get_flat {arch} {hv} {sec} s a sz)'
+                wr = f'(fun a sz v s => MemU_set_flat {arch} {hv} {sec} s a sz v)'
+            else:
+                rd = f'(fun a sz s => MemA_get_flat {arch} s a sz)'
+                wr = f'(fun a sz v s => MemA_set_flat {arch} s a sz v)'
+            if kind.startswith('ldmx'):
+                fields = [0, wback, regs, n]
+                spec = f'(LDMx {rd} {arch} {jaz} {kind.split()[1]} {m} {wback} {regs} {n})'
+            elif kind.startswith('stmx'):
+                fields = [0, wback, regs, n]
+                spec = f'(STMx {wr} {kind.split()[1]} {m} {wback} {regs} {n})'
+            elif kind == 'push':
+                fields = [0, regs, ua]
+                spec = f'(PUSH {wr} {m} {regs})'
+            elif kind == 'pop':
+                if ua:
+                    regs &= 0x7FFF          # the unaligned-allowed PC load has its own UNPREDICTABLE rule
+                    regs = regs or 1
+                fields = [0, regs, ua]
+                spec = f'(POP {rd} {arch} {jaz} {m} {regs})'
+            elif kind == 'stm_user':
+                fields = [0, inc, wh, regs, n]
+                spec = f'(STM_user {wr} {m} {inc} {wh} {regs} {n})'
+            elif kind == 'ldm_user':
+                regs &= 0x7FFF
+                regs = regs or 1
+                fields = [0, inc, wh, regs, n]
+                spec = f'(LDM_user {rd} {m} {inc} {wh} {regs} {n})'
+            elif kind == 'ldm_eret':
+                regs &= 0x7FFF
+                fields = [0, inc, wh, wback, regs, n]
+                spec = f'(LDM_eret {rd} {jaz} {hs} 0 {m} {inc} {wh} {wback} {regs} {n})'
+            elif kind == 'rfe':
+                fields = [0, inc, wh, wback, n]
+                spec = f'(RFE {rd} {jaz} {hs} 0 {m} {inc} {wh} {wback} {n})'
+            else:
+                fields = [0, inc, wh, wback, tmode]
+                spec = f'(SRS {wr} {m} {inc} {wh} {wback} {tmode})'
+            args = ' '.join(str(x) for x in fields)
+            model = f'(enc_out enc_machine enc_unit ({cls}_execute {cfg} {args} {m}))'
+            out.append({'impl': {'kind': 'exec', 'state': st, 'module': module, 'cls': cls, 'fields': fields},
+                        'model': model, 'spec': f'(enc_out enc_machine enc_unit {spec})', 'label': 'family_' + cls, 'nontrivial': True})
+    return out
+
+
+def abort_cases(rng, tier):
+    """transfers that run into a no-access MPU region part-way: registers already loaded stay loaded, nothing after the
+    faulting access happens, and in particular the base register / SP is not written back"""
+    from props import c14
+    t = statelib.load_index(C.GEN)['tables']
+    out = []
+    il = {n_: t['sysl_names'].index(n_) for n_ in ('drsrs', 'drbars', 'dracrs')}
+    isc = t['sys_names'].index('sctlr')
+    icpsr = t['sys_names'].index('cpsr')
+    per = 10 if tier == 'quick' else 400
+    for cls, module, thumb, kind in (('PopThumb', 'pop_thumb', True, 'pop'), ('PopArm', 'pop_arm', False, 'pop'),
+                                     ('LdmArm', 'ldm_arm', False, 'ldmx 0'), ('Ldmdb', 'ldmdb', False, 'ldmx 2'),
+                                     ('Stm', 'stm', False, 'stmx 0'), ('Stmdb', 'stmdb', False, 'stmx 2'), ('Push', 'push', False, 'push')):
+        for _ in range(per):
+            cfgd, st, n = c14.mk_state(rng, t)
+            n = 12
+            st['sys'][t['sys_names'].index('mpuir')] = n << 8
+            st['sys'][isc] = (st['sys'][isc] | 1) & ~2
+            for r in range(12):
+                st['sysl'][il['drsrs']][r] &= ~1
+            hi_base = 0x1000 + 32 * rng.randrange(2, 24)
+            st['sysl'][il['drsrs']][2] = (11 << 1) | 1                       # 4KB full access
+            st['sysl'][il['drbars']][2] = 0x1000
+            st['sysl'][il['dracrs']][2] = 3 << 8
+            st['sysl'][il['drsrs']][7] = (4 << 1) | 1                        # 32 bytes, no access
+            st['sysl'][il['drbars']][7] = hi_base
+            st['sysl'][il['dracrs']][7] = 0
+            mode = rng.choice([16, 19, 31])
+            st['sys'][icpsr] = (st['sys'][icpsr] & ~0x3F) | (int(thumb) << 5) | mode
+            st['R'] = [rng.getrandbits(32) for _ in range(34)]
+            st['R'][t['rnames'].index('PC')] = 0x1000
+            st['opcode'], st['opcode_len'] = (0xE0000000, 32) if not thumb else (0x4000, 16)
+            count = rng.randrange(2, 7)
+            low = rng.sample(range(0, 8), count - 1)
+            regs = sum(1 << i for i in low) | (0x8000 if rng.random() < 0.7 else (1 << rng.choice([8, 9, 10, 11, 12, 14])))
+            cnt = bin(regs).count('1')
+            k = rng.randrange(0, cnt)                 # index of the first access that falls into the no-access region
+            nreg = 13 if kind in ('pop', 'push') else rng.choice([13, 8, 9])
+            if kind in ('pop', 'ldmx 0', 'stmx 0'):
+                base = hi_base - 4 * k
+            else:                                       # descending: lowest address = base - 4*cnt
+                base = hi_base - 4 * k + 4 * cnt
+            regs &= ~(1 << nreg) if kind != 'push' else 0xFFFF
+            if bin(regs).count('1') != cnt:
+                continue
+            set_reg(st, t, nreg, base)
+            arch, jaz = cfgd['arch_version'], int(cfgd['jazelle_accepts_execution'])
+            priv = b(mode != 16)
+            cfg = statelib.coq_config(cfgd, t)
+            m = statelib.coq_machine(st)
+            rd = f'(fun a sz s => MemA_get_mpu_spec {arch} {n}%nat s a sz {priv})'
+            wr = f'(fun a sz v s => MemA_set_mpu_spec {arch} {n}%nat s a sz v {priv})'
+            wback = 1
+            if kind == 'pop':
+                fields = [0, regs, 0]
+                spec = f'(POP {rd} {arch} {jaz} {m} {regs})'
+            elif kind == 'push':
+                fields = [0, regs, 0]
+                spec = f'(PUSH {wr} {m} {regs})'
+            elif kind.startswith('ldmx'):
+                fields = [0, wback, regs, nreg]
+                spec = f'(LDMx {rd} {arch} {jaz} {kind.split()[1]} {m} {wback} {regs} {nreg})'
+            else:
+                fields = [0, wback, regs, nreg]
+                spec = f'(STMx {wr} {kind.split()[1]} {m} {wback} {regs} {nreg})'
+            args = ' '.join(str(x) for x in fields)
+            model = f'(enc_out enc_machine enc_unit ({cls}_execute {cfg} {args} {m}))'
+            out.append({'impl': {'kind': 'exec', 'state': st, 'module': module, 'cls': cls, 'fields': fields},
+                        'model': model, 'spec': f'(enc_out enc_machine enc_unit {spec})', 'label': 'abort_' + cls, 'nontrivial': True})
+    return out
+
+
 def units():
     thms = ['C03_LDM', 'C03_STM', 'C03_lowest_total', 'C03_flat_ictx', 'C03_flat_rset', 'C03_flat_rd', 'C03_flat_wr']
     needs = ['opcodes.abstract_opcodes.ldm_arm.LdmArm.execute', 'opcodes.abstract_opcodes.stm.Stm.execute']
-    return [Unit('block', thms, ['Proofs/BlockProofs.v', 'Proofs/MemProofs.v', 'Proofs/LSProofs.v'], needs, cases, IMPORTS, SPEC_IMPORTS)]
+    return [Unit('block', thms, ['Proofs/BlockProofs.v', 'Proofs/MemProofs.v', 'Proofs/LSProofs.v'], needs, cases, IMPORTS, SPEC_IMPORTS),
+            Unit('family', [], [], [], family_cases, IMPORTS, SPEC_IMPORTS + '\nFrom ArmV Require Import Spec.Exceptions Spec.BlockFamily.'),
+            Unit('abort', [], [], [], abort_cases, IMPORTS, SPEC_IMPORTS + '\nFrom ArmV Require Import Spec.Exceptions Spec.BlockFamily Corr.MpuSpecRun.')]
